@@ -14,6 +14,9 @@ CHECKS = {
  "C03": ("Metamorphic exhaustive exploration, implementation against itself: for every positive clause of the single-clause universe (all unary and binary operators, all/some, literal and query right-hand sides) and every document, the clause, its prefix negation, its operator-level negation and the double negation are evaluated and related by the laws of the property (not c == c-bar, double negation, SKIP stays SKIP, single comparable value flips, ordering duals, not R, spellings).",
          "Trusted base: the reference selection + native kernel decide only the side condition 'single comparable value'; all compared statuses come from the implementation.",
          "exhaustive enumeration of clauses x documents with metamorphic negation laws on the implementation's own results"),
+ "C02": ("Exhaustive enumeration of all CNF shapes (quick: <=2x3 and 3x2; thorough: all 60 879 shapes up to 3 lines x 3 alternatives) with leaves forced to PASS/FAIL/SKIP at eight aggregation sites plus the file level and the named-rule clause, compared with the closed-form combinator of the property; and a node-by-node audit of the verbose evaluation record of every composite program of the BFS universe (plus type blocks, parameterised rules, function lets, nested when/blocks) alongside its AST.",
+         "Trusted base: the 30-line closed-form fold, the record parser, the harness AST used to align record children with lines; a leaf clause's own per-value aggregation is left to C01.",
+         "exhaustive enumeration of CNF shapes x aggregation sites against a closed-form combinator, plus record audit of every explored program"),
 }
 PENDING_REASON = "check under construction in this round (design in DESIGN.md section 5); not claimed until its quick tier runs clean on the unchanged tree"
 ALL = ["C%02d" % i for i in range(1, 20)]
